@@ -1,6 +1,7 @@
 """C12 - estimates are a deterministic function of the arguments (self-composition over call histories)."""
 import copy
 
+import numpy as np
 import pandas as pd
 
 from engine import sym
@@ -8,19 +9,29 @@ from . import pipeline as P
 from . import tworun as T
 
 ID = "C12"
-ENCODED = P.ENCODED_PIPELINE + ["elexmodel.utils.math_utils:boot_sigma", "elexmodel.handlers.config:ConfigHandler.get_features"]
+ENCODED = P.ENCODED_PIPELINE + ["elexmodel.utils.math_utils:boot_sigma", "elexmodel.handlers.config:ConfigHandler.get_features",
+                                 "elexmodel.models.BootstrapElectionModel:BootstrapElectionModel.__init__",
+                                 "elexmodel.models.BootstrapElectionModel:BootstrapElectionModel._bootstrap_errors",
+                                 "elexmodel.models.BootstrapElectionModel:BootstrapElectionModel._bootstrap_epsilons",
+                                 "elexmodel.models.BootstrapElectionModel:BootstrapElectionModel._bootstrap_deltas",
+                                 "elexmodel.models.BootstrapElectionModel:BootstrapElectionModel._strata_pit",
+                                 "elexmodel.models.BootstrapElectionModel:BootstrapElectionModel._sample_test_delta"]
 STUBS = P.STUBS_PIPELINE + [
     "entropy model: scipy.stats.bootstrap called WITHOUT random_state / rng returns a fresh unconstrained positive value on every "
     "call (so outputs that depend on it can differ between equal calls); called with a seed / seeded generator it is an "
     "uninterpreted function of (data, confidence level, seed, generator state)",
-    "DataFrame.sample(random_state=seed) is the real pandas implementation (deterministic)", P.CUT_STUB_NOTE]
+    "DataFrame.sample(random_state=seed) is the real pandas implementation (deterministic)", P.CUT_STUB_NOTE,
+    "bootstrap draws: numpy.random.default_rng(seed) returns a fake generator whose draws are uninterpreted functions of (seed, "
+    "position in the stream, arguments); the module-level numpy.random.* functions are unseeded sources (fresh value per call); the "
+    "per-stratum ppf / cdf are uninterpreted functions"]
 ASSUMES = P.ASSUMES_PIPELINE
 OUTSIDE = P.OUTSIDE_PIPELINE + ["'under different hash seeds': set / dict iteration order inside CPython is not observable to the "
-                                "symbolic proxies - NOT covered", "bootstrap estimator: its generator is created from the seed "
-                                "setting in __init__ (covered by the bootstrap history cases of C08)"]
+                                "symbolic proxies - NOT covered", "bootstrap: cross-validation folds (cv_lambda) and the multi-contest branch of "
+                                "_sample_test_epsilon (np.corrcoef / block_diag on symbolic values) are not executed"]
 BOUNDS = {"quick": "NP (4 reporting) and GA (7 reporting), 2 nonreporting, 1 unexpected; histories on one client: [R, R], [R, R', R] with R' a "
                    "different estimator / alphas / estimands / aggregates, and fresh client vs used client; same config object reused; seed "
-                   "setting 0; callers that omit model_parameters: [R] vs [bootstrap run, other estimator, R] from a fresh process state",
+                   "setting 0; callers that omit model_parameters: [R] vs [bootstrap run, other estimator, R] from a fresh process state; "
+                   "bootstrap draws of two models built from the same seed setting (2 training units, 1 outstanding unit, B = 2, seeds 0 and 7)",
           "thorough": "adds 2 estimands and histories of 4 calls"}
 OPTS = {"quick": dict(case_timeout_s=900, solver_timeout_ms=30000), "thorough": dict(case_timeout_s=3000, solver_timeout_ms=60000)}
 
@@ -48,6 +59,8 @@ def cases(tier):
                         R=R, other_pi=other_pi, cut_calibration=True, weight=20))
         out.append(dict(name="%s_fresh_vs_used" % pi[:2], units=P.standard_units(max(nrep, 7), 2, [P.U("c2_x0", "unexp")], cls=True),
                         R=R, Rp=others["other_estimator"], fresh=True, cut_calibration=True, weight=10))
+    for seed in (0, 7):
+        out.append(dict(name="bootstrap_draws_seed%d" % seed, kind="bs_entropy", seed=seed, R=dict(pi="bootstrap"), weight=15))
     return out
 
 
@@ -95,6 +108,8 @@ def run_process(ctx, case):
 
 
 def run(ctx, case):
+    if case.get("kind") == "bs_entropy":
+        return run_bs_entropy(ctx, case)
     if case.get("kind") == "process":
         return run_process(ctx, case)
     from elexmodel.client import ModelClient
@@ -127,3 +142,127 @@ def signature(case, entry):
     parts = nm.split(" ")
     fam = "%s %s" % (parts[0], parts[-2] if len(parts) > 2 else "")
     return "%s|%s|%s" % (pi, entry["kind"], fam)
+
+
+# ------------------------------------------------------------------------------------------------ bootstrap entropy model
+class FakeGen:
+    """stands in for numpy.random.Generator: every draw is an uninterpreted function of (seed, method, how many draws were made
+    before, the arguments).  The module-level legacy functions (numpy.random.uniform, ...) are replaced by UNSEEDED sources that
+    return a fresh unconstrained value on every call."""
+
+    def __init__(self, ctx, seed, fresh=False):
+        self.ctx, self.seed, self.n, self.fresh = ctx, seed, 0, fresh
+
+    def _draw(self, method, shape, args):
+        from engine import stubs as ST
+
+        self.n += 1
+        size = int(np.prod(shape)) if shape else 1
+        if self.fresh or self.seed is None:
+            vals = [self.ctx.stub_real("unseeded_%s_%d_%d" % (method, self.n, j)) for j in range(size)]
+        else:
+            a = [sym.RV(int(self.seed)), sym.RV(self.n)] + ST.cells(*[x for x in args if x is not None])
+            vals = ST.stub_values(self.ctx, "RNG_%s_%s" % (method, "x".join(map(str, shape)) or "s"), a, size, label="rng_%s%d" % (method, self.n))
+        out = np.empty(size, dtype=object if not getattr(self.ctx, "concrete", False) else float)
+        out[:] = vals
+        return out.reshape(shape) if shape else out[0]
+
+    def choice(self, a, size=None, replace=True, **kw):
+        a = np.asarray(a, dtype=object)
+        shape = tuple(np.atleast_1d(size)) + a.shape[1:]
+        return self._draw("choice", shape, [a])
+
+    def uniform(self, low=0.0, high=1.0, size=None):
+        return self._draw("uniform", tuple(np.atleast_1d(size)) if size is not None else (), [])
+
+    def multivariate_normal(self, mean, cov, size=None, **kw):
+        mean = np.asarray(mean, dtype=object)
+        shape = (tuple(np.atleast_1d(size)) if size is not None else ()) + mean.shape
+        return self._draw("mvn", shape, [mean, np.asarray(cov, dtype=object)])
+
+    def normal(self, loc=0.0, scale=1.0, size=None):
+        return self._draw("normal", tuple(np.atleast_1d(size)) if size is not None else (), [np.asarray(loc, dtype=object), np.asarray(scale, dtype=object)])
+
+    def shuffle(self, x, axis=0):
+        # a fixed permutation per (seed, position in the stream): reverse on odd draws
+        self.n += 1
+        if self.fresh or self.seed is None:
+            k = self.ctx.choose("unseeded_shuffle_%d" % self.n, 2)
+        else:
+            k = (int(self.seed) + self.n) % 2
+        if k:
+            x[:] = x[::-1].copy()
+
+
+def run_bs_entropy(ctx, case):
+    """two bootstrap models built from the same seed setting draw the same bootstrap errors"""
+    import numpy
+    from elexmodel.models.BootstrapElectionModel import BootstrapElectionModel as BEM
+    from engine import stubs as ST
+
+    B = 2
+    seed = case.get("seed", 7)
+    orig_rng = numpy.random.default_rng
+    legacy = {}
+    unseeded = FakeGen(ctx, None, fresh=True)
+    for name in ("choice", "uniform", "multivariate_normal", "normal", "shuffle"):
+        legacy[name] = getattr(numpy.random, name)
+        setattr(numpy.random, name, getattr(unseeded, name))
+    numpy.random.default_rng = lambda seed=None: FakeGen(ctx, seed)
+    orig_zeros = numpy.zeros
+    if not getattr(ctx, "concrete", False):
+        # the sampling functions preallocate float result arrays and assign into them: object arrays in symbolic mode
+        def zeros(shape, dtype=float, **kw):
+            if dtype in (float, None, numpy.float64):
+                a = numpy.empty(shape, dtype=object)
+                a[...] = 0.0
+                return a
+            return orig_zeros(shape, dtype=dtype, **kw)
+
+        numpy.zeros = zeros
+    outs = []
+    try:
+        # inputs shared by both runs
+        n_train, n_test = 2, 1
+        eps_y = np.empty((1, 1), dtype=object); eps_y[0, 0] = ctx.real("eps_y", -1, 1)
+        eps_z = np.empty((1, 1), dtype=object); eps_z[0, 0] = ctx.real("eps_z", -1, 1)
+        d_y = np.array([ctx.real("dy_%d" % i, -1, 1) for i in range(n_train)], dtype=object)
+        d_z = np.array([ctx.real("dz_%d" % i, -1, 1) for i in range(n_train)], dtype=object)
+        x_strata = pd.DataFrame({"intercept": [1, 1]})
+        agg_train = np.ones((n_train, 1))
+
+        def ufun(name):
+            def f(p):
+                p_arr = np.asarray(p, dtype=object)
+                flat = p_arr.ravel()
+                if not isinstance(p, np.ndarray):
+                    # concrete percentile (the inter-quartile range used for the contest-level variance): a fixed monotone map
+                    conc = np.array([2.0 * float(v) - 1.0 for v in flat])
+                    return conc.reshape(p_arr.shape) if p_arr.shape else float(conc[0])
+                vals = [ST.stub_values(ctx, name, ST.cells([v]), 1, label=name)[0] for v in flat]
+                out = np.empty(len(flat), dtype=object if not getattr(ctx, "concrete", False) else float)
+                out[:] = vals
+                return out.reshape(p_arr.shape) if p_arr.shape else out[0]
+
+            return f
+
+        key = (1,)
+        ppf_y, ppf_z, cdf_y, cdf_z = {key: ufun("PPFY")}, {key: ufun("PPFZ")}, {key: ufun("CDFY")}, {key: ufun("CDFZ")}
+        for _ in range(2):
+            m = BEM({"features": ["baseline_normalized_margin"], "B": B, "lambda_": 1.0, "seed": seed})
+            (ey, ez), (dy, dz) = m._bootstrap_errors(eps_y, eps_z, d_y, d_z, x_strata, cdf_y, cdf_z, ppf_y, ppf_z, agg_train)
+            ty, tz = m._sample_test_delta(pd.DataFrame({"intercept": [1]}), ppf_y, ppf_z)
+            outs.append(dict(ey=ey, ez=ez, dy=dy, dz=dz, ty=ty, tz=tz))
+    finally:
+        numpy.random.default_rng = orig_rng
+        numpy.zeros = orig_zeros
+        for name, f in legacy.items():
+            setattr(numpy.random, name, f)
+    a, b = outs
+    obl = []
+    for k in a:
+        xa, xb = np.asarray(a[k], dtype=object).ravel(), np.asarray(b[k], dtype=object).ravel()
+        obl.append(("bootstrap draws %s have the same shape in both runs" % k, xa.shape == xb.shape))
+        for i, (u, v) in enumerate(zip(xa, xb)):
+            obl.append(("bootstrap draw %s[%d] is a function of the seed setting only" % (k, i), T.cell_equal(u, v)))
+    return obl, {}
